@@ -162,3 +162,28 @@ RV_STUBS = ["c_uniformReal", "c_gaussian", "c_FMUL01", "c_FSQ", "c_SQRT"]
 def rv_unit(name, entry, enforce, functions, canaries=(), backend="cadical", timeout=900):
     return dict(name=name, template="spaces/realvector.c", entry=entry, sources=rv_sources(), enforce=[enforce], replace=RV_STUBS, flags=DFLAGS,
                 level="proof", bound="dimension <= 64", functions=functions, canaries=list(canaries), backend=backend, timeout=timeout, confirm=dict(unwind=4, defines={"MAXDIM": 3}))
+
+
+# ---------------------------------------------------------------- WrapperStateSpace forwarders (shared by C06, C07, C08, C09)
+WSH = "src/ompl/base/spaces/WrapperStateSpace.h"
+W_RULES = [(r"(\w+)->as<StateType>\(\)->getState\(\)", r"UNWRAP(\1)", 0), (r"space_->(\w+)\(", r"W_\1(", 0)]
+W_METHODS = [("isMetricSpace", r"bool isMetricSpace\(\) const override"), ("hasSymmetricDistance", r"bool hasSymmetricDistance\(\) const override"), ("hasSymmetricInterpolate", r"bool hasSymmetricInterpolate\(\) const override"),
+             ("isCompound", r"bool isCompound\(\) const override"), ("isDiscrete", r"bool isDiscrete\(\) const override"), ("isHybrid", r"bool isHybrid\(\) const override"),
+             ("getMaximumExtent", r"double getMaximumExtent\(\) const override"), ("getMeasure", r"double getMeasure\(\) const override"),
+             ("getLongestValidSegmentFraction", r"double getLongestValidSegmentFraction\(\) const override"), ("getLongestValidSegmentLength", r"double getLongestValidSegmentLength\(\) const override"),
+             ("getValidSegmentCountFactor", r"unsigned int getValidSegmentCountFactor\(\) const override"), ("getDimension", r"unsigned int getDimension\(\) const override"),
+             ("getSerializationLength", r"unsigned int getSerializationLength\(\) const override"), ("enforceBounds", r"void enforceBounds\(State \*state\) const override"),
+             ("satisfiesBounds", r"bool satisfiesBounds\(const State \*state\) const override"), ("copyState", r"void copyState\(State \*destination, const State \*source\) const override"),
+             ("distance", r"double distance\(const State \*state1, const State \*state2\) const override"), ("equalStates", r"bool equalStates\(const State \*state1, const State \*state2\) const override"),
+             ("validSegmentCount", r"unsigned int validSegmentCount\(const State \*state1, const State \*state2\) const override"), ("serialize", r"void serialize\(void \*serialization, const State \*state\) const override"),
+             ("deserialize", r"void deserialize\(State \*state, const void \*serialization\) const override"), ("interpolate", r"void interpolate\(const State \*from, const State \*to, double t, State \*state\) const override"),
+             ("copyToReals", r"void copyToReals\(std::vector<double> &reals, const State \*source\) const override"), ("copyFromReals", r"void copyFromReals\(State \*destination, const std::vector<double> &reals\) const override"),
+             ("getValueAddressAtIndex", r"double \*getValueAddressAtIndex\(State \*state, unsigned int index\) const override")]
+
+
+def wrapper_unit(name):
+    return dict(name=name, template="spaces/wrapper_fwd.c", mode="plain", entry="h_forwarders", flags=["--bounds-check", "--pointer-check"], level="proof", backend="minisat", timeout=300,
+                functions=["WrapperStateSpace::" + m for m, _ in W_METHODS],
+                sources=[dict(name="w_" + m, file=WSH, sig=sg, rules=W_RULES, loops={}) for m, sg in W_METHODS],
+                canaries=[dict(name="metric_claim_from_symmetry", where="body:w_isMetricSpace", rx=r"W_isMetricSpace\(\)", repl="W_hasSymmetricDistance()"),
+                          dict(name="copy_direction_swapped", where="body:w_copyState", rx=r"UNWRAP\(destination\), UNWRAP\(source\)", repl="UNWRAP(source), UNWRAP(destination)")])
